@@ -589,16 +589,16 @@ func C03LongLists() {
 
 // zzWide66: a struct with more members than a machine word has bits.
 type zzWide66 struct {
-	F0 uint8
-	F1 uint8
-	F2 uint8
-	F3 uint8
-	F4 uint8
-	F5 uint8
-	F6 uint8
-	F7 uint8
-	F8 uint8
-	F9 uint8
+	F0  uint8
+	F1  uint8
+	F2  uint8
+	F3  uint8
+	F4  uint8
+	F5  uint8
+	F6  uint8
+	F7  uint8
+	F8  uint8
+	F9  uint8
 	F10 uint8
 	F11 uint8
 	F12 uint8
